@@ -1,7 +1,7 @@
 use nom::{
     bytes::complete::tag,
     character::complete::{char, i128},
-    combinator::{into, opt, recognize},
+    combinator::{into, map_res, opt, recognize},
     multi::{many0, separated_list0, separated_list1},
     sequence::terminated,
 };
@@ -11,7 +11,7 @@ use crate::{
     intermediate::{types::*, *},
 };
 
-use super::{common::optional_comma, constraint::constraints, *};
+use super::{common::optional_comma, constraint::constraints, error::MiscError, *};
 
 pub fn sequence_value(input: Input<'_>) -> ParserResult<'_, ASN1Value> {
     map(
@@ -69,7 +69,7 @@ pub fn sequence(input: Input<'_>) -> ParserResult<'_, ASN1Type> {
 }
 
 fn extension_group(input: Input<'_>) -> ParserResult<'_, SequenceComponent> {
-    map(
+    map_res(
         in_version_brackets(preceded(
             opt(pair(
                 skip_ws_and_comments(i128),
@@ -89,10 +89,14 @@ fn extension_group(input: Input<'_>) -> ParserResult<'_, SequenceComponent> {
                     SequenceComponent::ComponentsOf(c) => components_of.push(c),
                 }
             }
-            SequenceComponent::Member(SequenceOrSetMember {
+            // The group is named after its first member
+            let first_member_name = members
+                .first()
+                .map(|m| m.name.clone())
+                .ok_or(MiscError("Extension addition group without named component"))?;
+            Ok::<_, MiscError>(SequenceComponent::Member(SequenceOrSetMember {
                 is_recursive: false,
-                name: String::from(INTERNAL_EXTENSION_GROUP_NAME_PREFIX)
-                    + &members.first().unwrap().name,
+                name: String::from(INTERNAL_EXTENSION_GROUP_NAME_PREFIX) + &first_member_name,
                 tag: None,
                 ty: ASN1Type::Sequence(SequenceOrSet {
                     components_of,
@@ -102,7 +106,7 @@ fn extension_group(input: Input<'_>) -> ParserResult<'_, SequenceComponent> {
                 }),
                 optionality: Optionality::Required,
                 constraints: vec![],
-            })
+            }))
         },
     )
     .parse(input)
